@@ -4,7 +4,7 @@ from __future__ import annotations
 from t2.family import KINDS, QUICK, EOF_KINDS, Program, enumerate_programs, sample_programs, valid_sequence
 
 # kinds whose symbolic execution is expensive (nested data-dependent loops): only alone or with cheap partners
-HEAVY = {"z_uleb", "d_inner", "b64", "z_i24", "d_i24", "a_inner_2", "dyn", "d_expr"}
+HEAVY = {"z_uleb", "d_inner", "b64", "z_i24", "d_i24", "a_inner_2", "dyn", "d_expr", "d_blk", "d_blk2"}
 REJECTED = {"b8_roll"}  # straddling bit-field: must be refused at definition time (checked under C06)
 CHEAP_PARTNERS = ["u8", "u32", "i24"]
 
